@@ -11,6 +11,7 @@
     * `letterGroups_spec`  : what `letterGroups` reports (letter word, digits) is, through the reference
                              `letterVersion`, exactly what the model's `letterSeg` reads (pre / post-letter / dev groups);
     * `firstPrefixW_spec`, `tables_norm` (the normal form of every word of the model's tables is `normLetter` of it).
+  (LATER: the assembly is proved in Proofs/TieQ_SearchOk.lean — `TieQ.searchOk_groupsOf`; the text below describes the state of this file alone.)
   REMAINING: the assembly of these lemmas over `groupsCore` / `parseCore` (epoch head, `-N` post form, local group —
   the local group's lemma is `tie_pepParseLocalVersion_model`).  Until then `SearchOk` is a hypothesis of the
   model-level ties; the `example`s at the end evaluate both sides on sample strings.
